@@ -69,4 +69,11 @@ TEXT = {
         "design_ref": "DESIGN.md section 2, C09",
         "level_note": "Trusted base: net.Pipe semantics (a Write returns only when consumed), hlsim transfer client, hlref. Fault model: client-side connection close at a byte offset; server crashes are C20.",
     },
+    "C10": {
+        "engine": "E1 bubble world",
+        "technique": "property-based testing (rapid) of both folder-transfer protocols with an independent reference client state machine over generated trees and action scripts; round trip upload -> download",
+        "level_text": "Generated trees and per-item client choices are driven through the real folder download / upload loops; the reference client checks item count, order, paths, kinds, size prefixes and bytes item by item, the server's per-item answers during upload, the resulting tree, and the upload->download round trip.",
+        "design_ref": "DESIGN.md section 2, C10",
+        "level_note": "Trusted base: hlsim folder-transfer client (written from the protocol description), hlref parsers. Trees bounded at 300 entries / depth 4.",
+    },
 }
